@@ -270,7 +270,9 @@ func produceVerificationArgs(
 	consensusState *ConsensusState,
 	err error,
 ) {
-	if cs.GetLatestHeight().LT(height) {
+	// the confirmation delay is counted in block numbers: the proof's block number must not lie above the head's
+	// either (heights of different revision numbers compare by revision first, and the subtraction would wrap)
+	if cs.GetLatestHeight().LT(height) || cs.GetLatestHeight().GetRevisionHeight() < height.GetRevisionHeight() {
 		return Proof{}, nil, sdkerrors.Wrapf(
 			sdkerrors.ErrInvalidHeight,
 			"client state height < proof height (%d < %d)",
